@@ -52,6 +52,7 @@ def run(chk, replay=None):
     nval = 700 if quick else 60000
     have_model = gate is not None and core.os.path.exists(core.RUNNER)
     failing, mism, dist = [], [], {}
+    ncmp = [0]      # pairs (implementation answer, model answer) actually compared
     def bump(k, n=1): dist[k] = dist.get(k, 0) + n
     def fail(what, rep): failing.append((what, rep))
     def run_both(lines):
@@ -61,6 +62,11 @@ def run(chk, replay=None):
     def corr(lines, impl, model, name):
         if impl is None or model is None: return
         for c, o, m in zip(lines, impl, model):
+            if not (c09.answered(o) and c09.answered(m)):
+                if c09.answered(o) != c09.answered(m):
+                    mism.append((name, c, o, m))
+                continue
+            ncmp[0] += 1
             if c09.strip_impl(o) != m:
                 mism.append((name, c, o, m))
 
@@ -253,7 +259,8 @@ def run(chk, replay=None):
                        "D: every type byte in every header position. non-trivial = containers / alternative forms / all envelope and type-code cases")
     for c in (a_lines[0], alt_lines[len(alt_lines) // 2], r_lines[0], t_lines[77]):
         chk.sample(c[:300])
-    chk.cov["disagreements_checked"] = len(a_lines) + len(alt_lines) + len(m_lines) + len(r_lines) + len(bad_lines) + len(x_lines) + len(t_lines)
+    chk.cov["disagreements_checked"] = ncmp[0]
+    chk.cov["cases_sent"] = len(a_lines) + len(alt_lines) + len(m_lines) + len(r_lines) + len(bad_lines) + len(x_lines) + len(t_lines)
     chk.cov["model_impl_mismatches"] = len(mism)
     chk.cov["distribution"] = dist
     chk.cov["spec_vs_reference_disagreements"] = len(spec_disagree)
